@@ -11,9 +11,18 @@ def budget(tier):
 
 
 def gen_case(rng, tier, i):
-    if rng.random() < 0.5:
+    r = rng.random()
+    if r < 0.3:
         c = G.gen_graph(rng, tier)
         c["kind"] = "lpaths"
+        return c
+    if r < 0.65:
+        c = G.gen_graph(rng, tier, max_segs=8)
+        c["kind"] = "merge"
+        c["pick"] = rng.randrange(1000)
+        c["all"] = rng.random() < 0.35
+        c["vlevel"] = rng.choice([0, 1, 1, 2, 3])
+        c["spoil"] = rng.choice([None, None, None, "collision", "cigar", "ln"])
         return c
     if rng.random() < 0.4:
         alpha = "ACGTacgtNnRYKMSWBVHDuU.-=xZ"
@@ -61,10 +70,84 @@ def lpaths_ops(case):
     return ops, exp
 
 
+def merge_ops(case):
+    """merge_linear_path(one of the linear paths) / merge_linear_paths(), complete observation afterwards"""
+    gfapy = lib.import_gfapy()
+    v, vl = case["version"], case.get("vlevel", 1)
+    if not all(supported_add(l) for l in case["lines"]):
+        return [], []
+    try:
+        g = gfapy.Gfa(version=v, vlevel=vl)
+        for l in case["lines"]:
+            g.add_line(l)
+    except gfapy.Error:
+        return [], []
+    r = lib.outcome(g.linear_paths)
+    if r[0] != "ok" or not r[1]:
+        return [], []
+    sp = case.get("spoil")
+    if sp and not case.get("all"):
+        # something that makes the merge of the picked path fail or take an unusual branch: the merged name is
+        # taken, an overlap that is not M/= only, an LN tag that contradicts the sequence (level 0 only)
+        path = r[1][case["pick"] % len(r[1])]
+        lines = [str(l) for l in g.lines if l.record_type in "SLCPEGFOU"]
+        if sp == "collision":
+            nm = "_".join(se.name for se in path)
+            lines.append("S\t%s\t*" % nm if v == "gfa1" else "S\t%s\t7\t*" % nm)
+        elif sp == "cigar":
+            a, b = path[0].name, path[1].name
+            for k, l in enumerate(lines):
+                f = l.split("\t")
+                if v == "gfa1" and f[0] == "L" and {f[1], f[3]} == {a, b} and f[5] != "*":
+                    f[5] = "1M1I1M"
+                    lines[k] = "\t".join(f)
+                elif v == "gfa2" and f[0] == "E" and {f[2][:-1], f[3][:-1]} == {a, b} and f[8] != "*":
+                    f[8] = "1M1I1M" if f[8] != "1M1I1M" else "3M"
+                    lines[k] = "\t".join(f)
+        elif sp == "ln" and v == "gfa1" and vl == 0:
+            for k, l in enumerate(lines):
+                f = l.split("\t")
+                if f[0] == "S" and f[1] == path[0].name and f[2] != "*":
+                    f = [x for x in f if not x.startswith("LN:")] + ["LN:i:%d" % (len(f[2]) + 3)]
+                    lines[k] = "\t".join(f)
+        try:
+            g = gfapy.Gfa(version=v, vlevel=vl)
+            for l in lines:
+                g.add_line(l)
+        except gfapy.Error:
+            return [], []
+        r = lib.outcome(g.linear_paths)
+        if r[0] != "ok" or not r[1]:
+            return [], []
+    ops = [op("g.new", v)] + [op("g.add", str(l)) for l in g.lines if l.record_type in "SLCPEGFOU"]
+    exp = ["ok"] * len(ops)
+    if case.get("all"):
+        mop = op("g.mergeall", vl)
+        r2 = lib.outcome(g.merge_linear_paths)
+    else:
+        path = r[1][case["pick"] % len(r[1])]
+        mop = op("g.merge", _show(path), vl)
+        r2 = lib.outcome(g.merge_linear_path, path)
+    if r2[0] == "gerr":
+        # refused: the model refuses too; what is left behind then is the oracle's business (C08 for the Gfa as a whole)
+        ops.append(mop); exp.append("refused")
+        return ops, exp
+    if r2[0] != "ok":
+        return [], []
+    o = lib.outcome(lib.obs_flat, g)
+    if o[0] != "ok" or "# INVALID" in o[1]:
+        return [], []
+    ops.append(mop); exp.append("ok")
+    ops.append(op("g.obs")); exp.append("ok " + o[1])
+    return ops, exp
+
+
 def model_ops(case):
     gfapy = lib.import_gfapy()
     if case["kind"] == "lpaths":
         return lpaths_ops(case)
+    if case["kind"] == "merge":
+        return merge_ops(case)
     if case["kind"] == "rc":
         r = lib.outcome(gfapy.sequence.rc, case["s"])
         return [op("seq.rc", case["s"])], ["ok " + r[1] if r[0] == "ok" else "gerr " + r[1]]
